@@ -232,6 +232,8 @@ pub enum E {
     FStr(Vec<Part>),
     /// `l + r` on strings
     Concat(Box<E>, Box<E>),
+    /// `l + r` on lists (`List.concat`, the same `desugared_binop`); the specification's `concat` too
+    ConcatL(Box<E>, Box<E>),
 }
 
 #[derive(Clone, Debug, PartialEq)]
@@ -478,7 +480,7 @@ pub fn expr(p: &Prog, e: &E, d: usize) -> String {
         ),
         E::Field(r, i) => format!("{}.{}", operand(p, r, d), FIELDS[*i]),
         E::List(es) => format!("[{}]", args(p, es, d)),
-        E::Concat(l, r) => format!("{} + {}", operand(p, l, d), operand(p, r, d)),
+        E::Concat(l, r) | E::ConcatL(l, r) => format!("{} + {}", operand(p, l, d), operand(p, r, d)),
         E::FStr(parts) => {
             let mut o = String::from("f\"");
             for pt in parts {
@@ -584,7 +586,7 @@ pub fn sx(p: &Prog, e: &E) -> String {
         ),
         E::Field(r, i) => format!("(field {} {i})", sx(p, r)),
         E::List(es) => format!("(list {})", sxs(p, es)),
-        E::Concat(l, r) => format!("(concat {} {})", sx(p, l), sx(p, r)),
+        E::Concat(l, r) | E::ConcatL(l, r) => format!("(concat {} {})", sx(p, l), sx(p, r)),
         E::FStr(parts) => {
             let ps: Vec<String> = parts
                 .iter()
@@ -634,6 +636,7 @@ pub fn kind(e: &E) -> String {
         E::List(_) => "list".into(),
         E::FStr(_) => "f-string".into(),
         E::Concat(..) => "string+".into(),
+        E::ConcatL(..) => "list+".into(),
     }
 }
 
@@ -653,7 +656,7 @@ pub fn children(e: &E) -> Vec<&E> {
         E::Int(_) | E::Bool(_) | E::Unit | E::Var(_) | E::None_ => {}
         E::Host(_, a) | E::Call(_, a) | E::Ctor(_, a) | E::List(a) => v.extend(a.iter()),
         E::Record(_, fs) => v.extend(fs.iter().map(|(_, e)| e)),
-        E::Bin(_, l, r) | E::And(l, r) | E::Or(l, r) | E::Concat(l, r) => {
+        E::Bin(_, l, r) | E::And(l, r) | E::Or(l, r) | E::Concat(l, r) | E::ConcatL(l, r) => {
             v.push(l);
             v.push(r);
         }
@@ -794,7 +797,7 @@ pub fn type_of(p: &Prog, e: &E) -> Option<T> {
         E::Ctor(..) => Some(T::E),
         E::Record(rk, _) => Some(rk.ty),
         E::Field(..) => Some(T::I),
-        E::List(_) => Some(T::L),
+        E::List(_) | E::ConcatL(..) => Some(T::L),
         E::FStr(_) | E::Concat(..) => Some(T::S),
     }
 }
@@ -992,6 +995,10 @@ fn expr_edits(p: &Prog, e: &E, k: &mut usize) -> Option<E> {
             sub!(l, |n| E::Concat(n, r.clone()));
             sub!(r, |n| E::Concat(l.clone(), n));
         }
+        E::ConcatL(l, r) => {
+            sub!(l, |n| E::ConcatL(n, r.clone()));
+            sub!(r, |n| E::ConcatL(l.clone(), n));
+        }
         E::Not(x) => sub!(x, E::Not),
         E::Neg(x) => sub!(x, E::Neg),
         E::Assign(v, x) => sub!(x, |n| E::Assign(*v, n)),
@@ -1098,7 +1105,7 @@ fn renumber(e: &mut E, removed: usize) {
         }
         E::Host(_, a) | E::Ctor(_, a) | E::List(a) => a.iter_mut().for_each(|x| renumber(x, removed)),
         E::Record(_, fs) => fs.iter_mut().for_each(|(_, x)| renumber(x, removed)),
-        E::Bin(_, l, r) | E::And(l, r) | E::Or(l, r) | E::Concat(l, r) => {
+        E::Bin(_, l, r) | E::And(l, r) | E::Or(l, r) | E::Concat(l, r) | E::ConcatL(l, r) => {
             renumber(l, removed);
             renumber(r, removed);
         }
